@@ -31,9 +31,10 @@ PROPERTY_NOTES = {
     'C06': dict(assumptions=[S['S2'], "float arithmetic exact", "the delay model's caller-side contract (result >= runtime) is proved under C15"],
                 not_covered=["monotonicity is the monotonicity of max(1, max(floor(w/s), floor(d/b))), stated in DESIGN.md and not a separate obligation"]),
     'C07': dict(assumptions=[S['S1'], S['S2'], "observation durations and (rounded) data rates are whole numbers (entity typing invariant, checked at every write)"],
-                not_covered=["'free space never drops below zero': the code keeps no reserve for concurrently admitted observations (DESIGN F7); only the per-observation admission check is proved"]),
-    'C08': dict(assumptions=[S['S1'], S['S3'], "telescope_use >= 0 (needs the sum of demands of running observations)"],
-                not_covered=["interference between observations admitted in the same timestep (DESIGN F9)", "'starts exactly on time when idle' lemma"]),
+                not_covered=["'free space never drops below zero' is not a discharged obligation: it needs a sum over the set of running ingest streams; the code keeps no reserve for concurrently admitted observations (F7: recorded as a known finding of the bounded monitor, scenario tight-hot-overlap); only the per-observation admission check is proved"]),
+    'C08': dict(assumptions=[S['S1'], S['S3'], "telescope_use >= 0 (needs the sum of demands of running observations)",
+                             "'completely idle' includes: no admitted ingest in progress (ghost admitted_ingest = 0; the ghost grows where an admission is granted and shrinks where allocate_ingest returns, and the Scheduler invariant ties provision_ingest to it)"],
+                not_covered=["interference between observations admitted in the same timestep (DESIGN F9)"]),
     'C09': dict(assumptions=[S['S1'], NX, "the per-observation split given to BatchProcessing has whole numbers and min <= max (assumed precondition)"],
                 not_covered=["per-observation min/max from the configuration file never reach the algorithm (DESIGN F10)"]),
     'C10': dict(assumptions=[S['S7'], NP, "sorted() with a key that contains the object's id/name is injective on tasks (ids unique, C14)",
